@@ -84,6 +84,7 @@ type Trace struct {
 	Seed     uint64           `json:"seed"`
 	Kind     string           `json:"kind,omitempty"`
 	Config   map[string]int64 `json:"config,omitempty"`
+	Setup    []Op             `json:"setup,omitempty"`
 	Ops      []Op             `json:"ops,omitempty"`
 	Clients  [][]Op           `json:"clients,omitempty"`
 	Faults   []Op             `json:"faults,omitempty"`
